@@ -267,13 +267,15 @@ def r15_2(run):
                 v = e.value
                 if v[0] == "call" and v[1][0] in ("x", "f") and v[1][1].endswith("with_signature") and len(v[2]) == 2 and v[2][0] == ("n", p0):
                     dc = v[2][1]
-                    if dc[0] == "comp" and dc[1] == "DictComp" and dc[2] == ("kv", ("b", 0, 0), ("b", 0, 1)) and len(dc[3]) == 1:
+                    # {k: obj[k] for k in obj.keys() if not k.startswith("_")}   (normal form of the loop over obj.items())
+                    if dc[0] == "comp" and dc[1] == "DictComp" and dc[2] == ("kv", ("b", 0), ("idx", ("n", p0), (("b", 0),))) and len(dc[3]) == 1:
                         bv, it, ifs = dc[3][0]
-                        keep = ("u", "not", ("call", ("attr", ("b", 0, 0), "startswith"), (C("_"),), ()))
-                        ok = it == ("call", ("attr", ("n", p0), "items"), (), ()) and ifs == (keep,)
-            dec = U(n.decorator_list[0])[:40] if n.decorator_list else "-"
-            run.ob("json_net|drops-internal-keys-only|%s" % dec, ok,
-                   "the net encoder writes every entry of the net except exactly the keys starting with '_'", "%s:%d" % (ix.sp.relpath(IU), n.lineno))
+                        keep = ("u", "not", ("call", ("attr", ("b", 0), "startswith"), (C("_"),), ()))
+                        ok = it == ("call", ("attr", ("n", p0), "keys"), (), ()) and ifs == (keep,)
+            for d_ in (n.decorator_list or [None]):         # one obligation per registered class (the registrations may be stacked)
+                dec = U(d_)[:40] if d_ is not None else "-"
+                run.ob("json_net|drops-internal-keys-only|%s" % dec, ok,
+                       "the net encoder writes every entry of the net except exactly the keys starting with '_'", "%s:%d" % (ix.sp.relpath(IU), n.lineno))
     # decoder arms
     reg = ix.cls(IU + ".FromSerializableRegistryPpipe")
     arms = {}
